@@ -356,7 +356,7 @@ impl<'a> R<'a> {
                 Sink::Count => "count",
                 Sink::First => "next",
             };
-            let sig = format!("{}:{}:{}", sink_name, p.stages.len(), norm(self.text(s.expr.span())));
+            let sig = format!("{}:{}", sink_name, norm(self.text(s.expr.span())));
             self.loop_sigs.insert(k, sig);
             let it = format!("__it{}", k);
             let e = format!("__e{}", k);
@@ -1006,7 +1006,7 @@ impl<'r, 'a, 'ast> Visit<'ast> for V<'r, 'a> {
                 let pat = self.r.render_pat(&fl.pat);
                 let ex = self.r.render_expr(&fl.expr);
                 // same signature as the `X.for_each(..)` form of the loop, so that for <-> for_each keeps its ordinal
-                let sig = format!("for_each:0:{}", norm(self.r.text(fl.expr.span())));
+                let sig = format!("for_each:{}", norm(self.r.text(fl.expr.span())));
                 self.r.loop_sigs.insert(k, sig);
                 let save = self.r.in_foreach;
                 self.r.in_foreach = if save > 0 { usize::MAX } else { 0 };
